@@ -83,6 +83,22 @@ def docSels (s : Schema) (d : QueryDoc) : List TSel :=
   d.ops.flatMap (fun op => typedSels s (rootDef s op.op) op.sel) ++
   d.frags.flatMap (fun f => typedSels s (s.type? f.typeCond) f.sel)
 
+/-- the node is written where the rules that read field definitions are meaningful: the type in
+    scope is a composite type (a union declaring no fields of its own), or it is not determined and
+    the node is not the meta-field `__typename` -/
+def nodeWellParented (t : TSel) : Bool :=
+  match t.parent with
+  | some q => isComposite q && (q.kind != .union || q.fields.isEmpty)
+  | none =>
+    match t.sel with
+    | .field _ nm _ _ _ _ => nm != nameTypename
+    | _ => true
+
+/-- every selection node of the document is well parented.  It fails only together with
+    `fragmentsOnCompositeTypes`, `leafFieldSelections`, `fieldSelections`, `knownRootType` or
+    `fragmentSpreadTypeExistence` (a union never declares fields in a loaded schema). -/
+def wellParented (s : Schema) (d : QueryDoc) : Bool := (docSels s d).all nodeWellParented
+
 /-- a selection SET with the type in scope inside it -/
 structure TSet where
   parent : Option Definition
